@@ -4,7 +4,7 @@ from . import sched_run
 LEAN_TARGETS = ['DawgieVerif.Model.SchedIO', 'DawgieVerif.Model.WorkerIO']
 TRUSTED = sched_run.TRUSTED
 MANIFEST = dict(
-    text='Lean theorems over Model/Sched.lean for a failure/invalid reply in any state reached by any history: withdrawn (target gone from the pending work of the failed algorithm and every node the recursive purge visits), pending_frame (other targets and unrelated algorithms unchanged; nobody gains pending work), executing_frame (executing work of every other algorithm untouched), queue_not_grown, outcome_recorded (history = old history ++ [entry]), executing_unit_is_queued; worker side (Props/C05Worker over Model/Worker + the clause table of pl.worker.cluster.execute regenerated from its AST on every run): worker_always_answers (every ending of a run -- normal return, the two invalid-data errors, any other Exception, SystemExit, KeyboardInterrupt -- produces an answer the farm books), worker_answer_table, worker_no_false_success; farm side (Props/C05Hand over Model/Hand + the tables of farm.Hand._translate/_res regenerated from their AST on every run): hand_res_is_reply (the regenerated _res equals the reply step of the scheduler model in every state), hand_translate_table, hand_calls, purgeNode_is_model / completeNode_is_model (Props/C05Gen: the node-local bodies of schedule._purge and schedule.complete regenerated from their AST are the model's definitions), ending_to_calls / ending_to_state (ending of the run -> answer -> booked state -> complete then update only for a normal return, purge otherwise). Tied by correspondence with the real Hand._res/complete/purge; the monitor compares real node sets before/after each non-success reply against descriptor-level dependents. End to end (harness/c05_e2e.py): the algorithm ends with RuntimeError / NoValidInput/OutputDataError / sys.exit() / KeyboardInterrupt inside the REAL pl.worker.cluster.execute (in-memory sockets), its answer goes through the real Hand.dataReceived, and the same clauses plus the recorded outcome are checked on the real scheduler (tasks and analyses).',
+    text='Lean theorems over Model/Sched.lean for a failure/invalid reply in any state reached by any history: withdrawn (target gone from the pending work of the failed algorithm and every node the recursive purge visits), pending_frame (other targets and unrelated algorithms unchanged; nobody gains pending work), executing_frame (executing work of every other algorithm untouched), queue_not_grown, outcome_recorded (history = old history ++ [entry]), executing_unit_is_queued; worker side (Props/C05Worker over Model/Worker + the clause table of pl.worker.cluster.execute regenerated from its AST on every run): worker_always_answers (every ending of a run -- normal return, the two invalid-data errors, any other Exception, SystemExit, KeyboardInterrupt -- produces an answer the farm books), worker_answer_table, worker_no_false_success; farm side (Props/C05Hand over Model/Hand + the tables of farm.Hand._translate/_res regenerated from their AST on every run): hand_res_is_reply (the regenerated _res equals the reply step of the scheduler model in every state), hand_translate_table, hand_calls, purgeNode_is_model / completeNode_is_model (Props/C05Gen: the node-local bodies of schedule._purge and schedule.complete regenerated from their AST are the definitions of the model), ending_to_calls / ending_to_state (ending of the run -> answer -> booked state -> complete then update only for a normal return, purge otherwise). Tied by correspondence with the real Hand._res/complete/purge; the monitor compares real node sets before/after each non-success reply against descriptor-level dependents. End to end (harness/c05_e2e.py): the algorithm ends with RuntimeError / NoValidInput/OutputDataError / sys.exit() / KeyboardInterrupt inside the REAL pl.worker.cluster.execute (in-memory sockets), its answer goes through the real Hand.dataReceived, and the same clauses plus the recorded outcome are checked on the real scheduler (tasks and analyses).',
     note='g.desc x (what _purge walks) is read from the real graph; that it is the set of transitive dependents is C09. chronicle.append is recorded by a fake (file format is C18). Trusted base as C01.',
     technique='Lean 4 proof: frame theorems by case analysis + invariant + differential correspondence',
     design='7/C05',
